@@ -19,8 +19,8 @@ RULE = ("exhaustive single assignments on a 2x3 array (4 initial contents with r
         "at least one assignment changes a cell or raises")
 LEVEL_NOTE = ("C04_assign_partial / C04_reject_partial / C04_fsarray_partial carry Operand.EscFree for plain-str rows (open "
               "finding D27) and, for rejection, the complement of D19's footprint; the statements are for row subscripts that are "
-              "non-negative ints or slices with explicit bounds 0 <= r0 <= r1 and column regions 0 <= c0 <= c1 <= width (the "
-              "property is silent beyond the width); C04_full_statement is refuted by "
+              "non-negative ints or slices with explicit bounds 0 <= r0 <= r1 and column regions that start inside the array or at its right edge, 0 <= c0 <= width, c0 <= c1 - c1 may lie beyond the edge (a region starting beyond the right edge is outside: the "
+              "property is silent there); C04_full_statement is refuted by "
               "C04_D19_witness and C04_D27_witness. Zero-area regions (r0 == r1 or c0 == c1) are OUTSIDE the statement's "
               "domain: no error is required there, only 'no cell changes' (C04_empty_region_noop, checked by the oracle). "
               "trusted: Lean kernel + propext/Classical.choice/Quot.sound, the hand-written models (FmtStr core, escape "
@@ -28,8 +28,8 @@ LEVEL_NOTE = ("C04_assign_partial / C04_reject_partial / C04_fsarray_partial car
 ASSUMPTIONS = ["plain str rows containing ESC '[' are IN the domain (the property lists 'lists of str/FmtStr' without exclusion): "
                "the code parses them and measures them raw (open finding D27); the theorems carry Operand.EscFree",
                "row subscripts are non-negative ints or slices with explicit non-negative bounds (a missing row stop makes "
-               "__setitem__ extend the array to sys.maxsize rows); column regions satisfy 0 <= c0 <= c1 <= width "
-               "(the statement is silent about columns beyond the width); a[i] = row (int subscript, no tuple) replaces "
+               "__setitem__ extend the array to sys.maxsize rows); column regions start inside the array or at its right edge (0 <= c0 <= width, c0 <= c1) and may extend beyond it - a row reaching past the width must raise, zero-width arrays accept only empty rows; a region starting beyond the right edge is outside "
+               "(the statement is silent there); a[i] = row (int subscript, no tuple) replaces "
                "the row object unchecked and is outside the statement",
                "empty regions (r0 == r1 or c0 == c1) are outside the statement: no error is required there whatever the block is, "
                "only 'no cell changes', which IS checked (and the tie still compares outcome and the extended rows)",
@@ -369,7 +369,9 @@ def region_of(op, W):
     else:
         c0 = 0 if c[1] is None else c[1]
         c1 = W if c[2] is None else c[2]
-        if not 0 <= c0 <= c1 <= W:
+        # the region starts inside the array or at its right edge (0 <= c0 <= width) and may extend BEYOND the edge: "a row
+        # so long that it would reach past the array's width raises" is about exactly these (and about zero-width arrays)
+        if not 0 <= c0 <= c1 or c0 > W:
             return None
     return r0, r1, c0, c1
 
@@ -447,7 +449,8 @@ def check_assign0(op, before, after, W, raised):
     if v["k"] == "str" and c1 - c0 > 1:
         return out
     block = value_rows(v)
-    well_shaped = len(block) == r1 - r0 and all(len(b) <= c1 - c0 for b in block)
+    # fits: right row count, no row longer than the region, no row reaching past the array's right edge
+    well_shaped = len(block) == r1 - r0 and all(len(b) <= c1 - c0 and c0 + len(b) <= W for b in block)
     if well_shaped:
         if raised:
             out.append(("a block of %d rows (lengths %r) fitting region rows %d:%d cols %d:%d raised %s"
@@ -763,6 +766,36 @@ def mk_cases(ctx):
                                   ops=wide_pre + [dict(o="S", r=("s", r0, r1), c=("s", c0, c1), v=dict(k="list", items=items)),
                                                   dict(o="G", r=("s", 0, 3), c=("s", 0, 3))]))
                 n0 += 1
+    # regions reaching past the right edge (c0 <= width < c1, also c0 == width) and zero-width arrays: a non-empty row that
+    # would reach past the width must raise and change nothing; rows that stay inside are composited as usual
+    for (l0, l1) in ((0, 0), (1, 3), (3, 2)):
+        pre = [] if (l0, l1) == (0, 0) else [init_op(l0, l1)]
+        for (r0, r1) in ((0, 1), (1, 2), (0, 2), (2, 3)):
+            for c0 in range(0, 4):
+                for c1 in (4, 5):
+                    for lens in itertools.product(range(0, 4), repeat=r1 - r0):
+                        items = [row_item(n, (i + n) % 3, i) for i, n in enumerate(lens)]
+                        cases.append(dict(kind="hist", nr=2, nc=3, fa=0,
+                                          ops=pre + [dict(o="S", r=("s", r0, r1), c=("s", c0, c1), v=dict(k="list", items=items)),
+                                                     dict(o="G", r=("s", 0, 4), c=("s", 0, 3))]))
+                        n0 += 1
+            cases.append(dict(kind="hist", nr=2, nc=3, fa=0,
+                              ops=pre + [dict(o="S", r=("i", r0), c=("s", 3, None), v=dict(k="list", items=[("s", "z")])),
+                                         dict(o="S", r=("i", r0), c=("s", 2, None), v=dict(k="list", items=[("s", "zz")]))]))
+            n0 += 1
+    for nr in (0, 1, 2):
+        for (r0, r1) in ((0, 1), (0, 2), (1, 2)):
+            for c1 in range(0, 4):
+                for lens in itertools.product(range(0, 3), repeat=r1 - r0):
+                    for kind in (0, 1):
+                        items = [row_item(n, kind, i) for i, n in enumerate(lens)]
+                        cases.append(dict(kind="hist", nr=nr, nc=0, fa=nr % 2,
+                                          ops=[dict(o="S", r=("s", r0, r1), c=("s", 0, c1), v=dict(k="list", items=items))]))
+                        n0 += 1
+                cases.append(dict(kind="hist", nr=nr, nc=0, fa=0,
+                                  ops=[dict(o="S", r=("s", r0, r1), c=("s", 0, c1),
+                                            v=dict(k="fsa", rows=[[("a", {})]] * (r1 - r0), w=1))]))
+                n0 += 1
     # rows and block rows whose runs REPEAT (equal text and attributes at different offsets): boundaries go by position
     rep_pre = [dict(o="S", r=("s", 0, 2), c=("s", 0, 4),
                     v=dict(k="list", items=[("f", [("a", {"fg": 34}), ("-", {}), ("a", {"fg": 34}), ("-", {})]),
@@ -808,7 +841,10 @@ def mk_cases(ctx):
                 elif q < 0.22:
                     cidx = ("s", None, None); c0, c1 = 0, nc
                 elif q < 0.27:
-                    cidx = r.choice([("i", nc), ("i", -1), ("s", -1, None), ("s", c0, nc + 1), ("s", None, -1)])  # outside the statement: tie only
+                    cidx = r.choice([("i", nc), ("i", -1), ("s", -1, None), ("s", nc + 1, nc + 2), ("s", None, -1)])  # outside the statement: tie only
+                elif q < 0.36:
+                    cidx = r.choice([("s", c0, nc + 1), ("s", c0, nc + 3), ("s", nc, nc + 2)])   # reaching past / starting at the right edge
+                    c0, c1 = cidx[1], cidx[2]
                 else:
                     cidx = ("s", c0, c1)
                 k = r1 - r0
